@@ -853,6 +853,78 @@ def check_compile_tr(chk, F):
     chk.floor(R, "compiled policies", n_ok, 16)
 
 
+# ---- R08.13 the signature-on-every-path bit -----------------------------------------------------------------------------
+
+def check_safety_bit(chk, F):
+    """Policy::is_safe_nonmalleable().0, the gate of every compile entry point, against its definition"""
+    import itertools
+    from ..builtins import deref
+    R = "R08.13"
+    chk.rule(R, "Policy::is_safe_nonmalleable - the gate every compile entry point applies first - reports a policy as safe "
+                "only if every way of satisfying it includes a signature: with all keys withheld and every hash preimage and "
+                "time lock granted the policy is false (TRIVIAL is satisfiable with nothing, so it is not safe; UNSATISFIABLE "
+                "is, vacuously); decided by evaluating the function on every policy of a bounded family (constants, key, "
+                "hash, lock under and / or / thresh to depth two)")
+    try:
+        isn = F.fn("is_safe_nonmalleable", file="policy/concrete.rs")
+    except KeyError as e:
+        chk.fail(R, "anchor", "missing anchor %s" % e, kind="unanalysable")
+        return
+    chk.saw(isn)
+    A, B = ("key", "A"), ("key", "B")
+    leaves = [("T",), ("F",), A, ("hash", "Sha256", "H"), ("older", 5)]
+    lvl1 = list(leaves)
+    for x, y in itertools.product(leaves, repeat=2):
+        y2 = B if y == A else y
+        lvl1 += [("and", [x, y2]), ("or", [x, y2])]
+    for k in (1, 2, 3):
+        for xs in itertools.combinations_with_replacement(leaves, 3):
+            lvl1.append(("thresh", k, list(xs)))
+    fam = list(lvl1)
+    inner = [("and", [A, ("T",)]), ("or", [A, ("T",)]), ("or", [A, ("F",)]), ("and", [("hash", "Sha256", "H"), ("T",)]),
+             ("thresh", 1, [A, ("T",), ("F",)]), ("or", [A, B]), ("and", [A, ("older", 5)])]
+    for x in inner:
+        for y in leaves:
+            fam += [("and", [x, y]), ("or", [x, y]), ("thresh", 2, [x, y, B])]
+
+    def granted(p):
+        """truth of the policy when no key signs and everything else is available"""
+        t = p[0]
+        if t == "T":
+            return True
+        if t in ("F", "key"):
+            return False
+        if t in ("hash", "older", "after"):
+            return True
+        if t == "and":
+            return all(granted(x) for x in p[1])
+        if t == "or":
+            return any(granted(x) for x in p[1])
+        if t == "thresh":
+            return sum(granted(x) for x in p[2]) >= p[1]
+        raise Unsupported("policy %r" % (p,))
+    m = Machine(F, strict=True)
+    m.text_keys = True
+    n = 0
+    for p in fam:
+        key = pol_text(p)
+        try:
+            r = m.call_callee({"def": isn, "resolved": isn, "name": "is_safe_nonmalleable", "targs": ["std::string::String"]},
+                              [_pol_adt(F, p)])
+            safe = bool(deref(r[0] if isinstance(r, tuple) else r.fields["0"]))
+        except Unsupported as e:
+            chk.fail(R, "unanalysable:" + key, "unanalysable: %s" % e, where=e.where, kind="unanalysable")
+            continue
+        except Panic as e:
+            chk.fail(R, key, "panic: %s" % e, F.fns[isn]["span"])
+            continue
+        n += 1
+        chk.obligation(R, not (safe and granted(p)), key,
+                       "is_safe_nonmalleable reports %s as requiring a signature on every path, yet it is satisfiable with no "
+                       "signature at all" % key, F.fns[isn]["span"])
+    chk.floor(R, "policies", n, 150)
+
+
 def run(chk):
     F = chk.facts()
     chk.explanation = __doc__
@@ -878,3 +950,5 @@ def run(chk):
     # context's checks (rule shared with C07, whose lift guard reads the same function)
     from . import c07
     chk.guard("R08.12", "candidate-filter", c07.check_local_validity_table, chk, F, "R08.12")
+    if not ONLY or "13" in ONLY.split(","):
+        chk.guard("R08.13", "safety-bit", check_safety_bit, chk, F)
